@@ -79,15 +79,34 @@ func gTexts(ss []string, pad int) string {
 	return "[" + strings.Join(items, "; ") + "]"
 }
 
-// writeTables returns the tables it found (for the generator's sweep over their entries).
-func writeTables(ctx *common.Ctx) map[string][][]string {
+// translatorFailed writes a Tables.v that does not compile and says why: ./check then reports the broken
+// translation as a violation WITHOUT a failing input (the table theorems cannot be re-proved), and Run goes on with
+// the comparison of the implementation against the specification tables (specSweep), which has failing inputs.
+func translatorFailed(ctx *common.Ctx, found map[string][][]string, problem string) (map[string][][]string, string) {
+	clean := strings.Map(func(r rune) rune {
+		if r == '"' || r == '\\' || r < ' ' || r > '~' {
+			return '\''
+		}
+		return r
+	}, problem)
+	src := "(* regenerated from pkg/cl/control.go on every run by harness/c15: the translation FAILED *)\n" +
+		"Goal False. fail \"" + clean + "\".\n"
+	if err := os.WriteFile(filepath.Join(ctx.OutDir, "Tables.v"), []byte(src), 0o644); err != nil {
+		panic(err)
+	}
+	reportChangedEntries(ctx, found)
+	return found, problem
+}
+
+// writeTables returns the tables it found (for the generator's sweep over their entries) and, when a table could not be
+// read as a literal, what is wrong (then no usable Tables.v exists and the model cannot be instantiated).
+func writeTables(ctx *common.Ctx) (map[string][][]string, string) {
 	fset := token.NewFileSet()
 	f, err := parser.ParseFile(fset, common.RepoDir()+"/pkg/cl/control.go", nil, 0)
 	found := map[string][][]string{}
 	scan := ""
 	if err != nil {
-		// no tables, no comparison: stop here (reported as a harness failure without a failing input)
-		panic("c15 translator: cannot parse pkg/cl/control.go: " + err.Error())
+		return translatorFailed(ctx, found, "c15 translator: cannot parse pkg/cl/control.go: "+err.Error())
 	} else {
 		for _, d := range f.Decls {
 			gd, ok := d.(*ast.GenDecl)
@@ -123,9 +142,11 @@ func writeTables(ctx *common.Ctx) map[string][][]string {
 	for _, nd := range need {
 		rows, ok := found[nd.goName]
 		if !ok || len(rows) != nd.rows {
-			// the source no longer has the table under this name / shape (for instance after a renaming): the model
-			// cannot be instantiated, so nothing can be compared; this is NOT evidence of a wrong output
-			panic(fmt.Sprintf("c15 translator: table %s not found in pkg/cl/control.go (or of another shape: %d rows, expected %d); the translator must be adapted to the new source layout", nd.goName, len(rows), nd.rows))
+			// the source no longer has the table under this name / shape as a literal (for instance after a renaming, or
+			// when it is computed at initialisation): the model cannot be instantiated; this is NOT evidence of a wrong
+			// output, the search for one is specSweep
+			delete(found, nd.goName)
+			return translatorFailed(ctx, found, fmt.Sprintf("c15 translator: table %s not found as a literal in pkg/cl/control.go (or of another shape: %d rows, expected %d); the translator must be adapted to the new source layout", nd.goName, len(rows), nd.rows))
 		}
 		if nd.rows == 1 {
 			fmt.Fprintf(&sb, "  %s := %s;\n", nd.field, gTexts(rows[0], nd.pad))
@@ -138,7 +159,7 @@ func writeTables(ctx *common.Ctx) map[string][][]string {
 		}
 	}
 	if len(scan) != 256 {
-		panic(fmt.Sprintf("c15 translator: dirScanMap not found in pkg/cl/control.go (or not 256 bytes: %d); the translator must be adapted to the new source layout", len(scan)))
+		return translatorFailed(ctx, found, fmt.Sprintf("c15 translator: dirScanMap not found in pkg/cl/control.go (or not 256 bytes: %d); the translator must be adapted to the new source layout", len(scan)))
 	}
 	bits := make([]string, 256)
 	for i := 0; i < 256; i++ {
@@ -149,7 +170,7 @@ func writeTables(ctx *common.Ctx) map[string][][]string {
 		panic(err)
 	}
 	reportChangedEntries(ctx, found)
-	return found
+	return found, ""
 }
 
 // the expected word tables (the same as Spec.std_tables): an entry of the source that differs is reported with
@@ -179,6 +200,9 @@ func reportChangedEntries(ctx *common.Ctx, found map[string][][]string) {
 		return ""
 	}
 	for _, name := range common.SortedKeys(expectedTables) {
+		if _, ok := found[name]; !ok {
+			continue // not read from the source: nothing to compare entry by entry (see specSweep)
+		}
 		exp, got := expectedTables[name], found[name]
 		for r := 0; r < len(exp) || r < len(got); r++ {
 			n := 0
